@@ -28,6 +28,12 @@ inductive HashErr where
   | typeNotSupported | sequenceTooLong | lowLevel
   deriving DecidableEq, Repr
 
+instance {ε α} [DecidableEq ε] [DecidableEq α] : DecidableEq (Except ε α)
+  | .ok a, .ok b => if h : a = b then isTrue (by rw [h]) else isFalse (by intro e; cases e; exact h rfl)
+  | .error a, .error b => if h : a = b then isTrue (by rw [h]) else isFalse (by intro e; cases e; exact h rfl)
+  | .ok _, .error _ => isFalse (by intro e; cases e)
+  | .error _, .ok _ => isFalse (by intro e; cases e)
+
 /-- big-endian bytes of `n mod 256^k`, `k` bytes -/
 def beBytes : Nat → Nat → List UInt8
   | 0, _ => []
@@ -40,11 +46,12 @@ def pack8 (bits : UInt64) : List UInt8 := beBytes 8 bits.toNat
 
 def inInt32 (i : Int) : Bool := decide (-2147483648 ≤ i) && decide (i < 2147483648)
 
-/-- Python `str(i)` for an int -/
-def intRepr (i : Int) : String := toString i
+/-- Python `format(i, "+x")`: sign character, then lower-case hex digits of the magnitude
+(no size limit in CPython, unlike the decimal conversion) -/
+def intRepr (i : Int) : String := (if i < 0 then "-" else "+") ++ String.ofList (Nat.toDigits 16 i.natAbs)
 
 /-- the hash of an int. In range: the 4 packed bytes. Out of range: since the `fix:` commit for C05
-(previously `struct.error`, i.e. `.error .lowLevel`) the tagged decimal text. -/
+(previously `struct.error`, i.e. `.error .lowLevel`) the tagged signed hex text. -/
 def hashInt (i : Int) : Except HashErr Sg :=
   if inInt32 i then .ok (hBytes (pack4 i)) else .ok (hStr ("__DDS_INT__" ++ intRepr i))
 
